@@ -19,6 +19,20 @@ import copyreg
 copyreg.pickle(HeaderTuple, lambda t: (HeaderTuple, tuple(t)))
 copyreg.pickle(NeverIndexedHeaderTuple, lambda t: (NeverIndexedHeaderTuple, tuple(t)))
 
+
+def _rebuild_size_limit_dict(cls, limit, items):
+    d = cls(size_limit=limit)
+    for k, v in items:
+        d[k] = v
+    return d
+
+
+# the closed-stream memory is a dict subclass with a constructor argument: pickled explicitly, so that copying a state
+# does not depend on which dict type it is derived from
+import h2.utilities  # noqa: E402
+copyreg.pickle(h2.utilities.SizeLimitDict,
+               lambda d: (_rebuild_size_limit_dict, (type(d), getattr(d, "_size_limit", None), list(d.items()))))
+
 H2Error = h2.exceptions.H2Error
 ProtocolError = h2.exceptions.ProtocolError
 
